@@ -20,16 +20,17 @@ TRUSTED = ['uniqueness of the solution of the defining equations (T1) turns "eac
            'the per-coordinate contracts are discharged by the checks of C01, C02, C04, C05, C06 (this check re-runs the DIM-specialised part of C05)']
 ASSUMPTIONS = ['storage order (row-major for DIM > 1, column-major for DIM = 1) is invisible at the level of the extracted IR: matrices are accessed by (row, column)']
 UNDECIDED_CLAUSES = ['bit-identity between the D-dimensional and the 1-D runs is not claimed (double as mathematical real); D in 1..4 are instantiated, the contracts are generic in DIM',
-                     'cubic gradient propagation is not under contract']
+                     ]
 
 PAIRS = [  # (class, method, nparams)
     ('CubicSplineND', 'solveSpline', 0), ('QuinticSplineND', 'solveQuintic', 0), ('SepticSplineND', 'solveSepticSpline', 0),
     ('QuinticSplineND', 'solveInternalDerivatives', None), ('SepticSplineND', 'solveInternalDerivatives', None),
-    ('QuinticSplineND', 'propagateGradInternal', 6), ('SepticSplineND', 'propagateGradInternal', 6),
+    ('CubicSplineND', 'propagateGradInternal', 6), ('QuinticSplineND', 'propagateGradInternal', 6), ('SepticSplineND', 'propagateGradInternal', 6),
+    ('CubicSplineND', 'getEnergyGradInnerPoints', 0), ('CubicSplineND', 'getEnergyGradBoundary', 0),
     ('QuinticSplineND', 'getEnergyGradInnerPoints', 0), ('SepticSplineND', 'getEnergyGradInnerPoints', 0),
     ('QuinticSplineND', 'getEnergyGradBoundary', 0), ('SepticSplineND', 'getEnergyGradBoundary', 0),
 ]
-SUMS = [('CubicSplineND', 'getEnergy', 0), ('QuinticSplineND', 'getEnergy', 0), ('SepticSplineND', 'getEnergy', 0),
+SUMS = [('CubicSplineND', 'getEnergyGradTimes', 0), ('CubicSplineND', 'getEnergy', 0), ('QuinticSplineND', 'getEnergy', 0), ('SepticSplineND', 'getEnergy', 0),
         ('QuinticSplineND', 'getEnergyGradTimes', 0), ('SepticSplineND', 'getEnergyGradTimes', 0)]
 
 
